@@ -52,6 +52,7 @@ class Session:
         self.calls = {}        # i -> dict(state, serial, deadline, outcome)
         self.time = 0
         self.queued = []       # peer messages written but not yet read by the connection: (i or None, kind)
+        self.readq = []        # the subset of self.queued that has been read into the incoming queue (not dispatched yet)
         self.connected = True
         self.peer_serial = 500
         self.hits = {}
@@ -84,6 +85,8 @@ class Session:
         ops.append(['advance', 6000])
         if self.queued:
             ops.append(['pump'])
+            if not all(q in self.readq for q in self.queued):
+                ops.append(['rw'])          # read what the peer wrote into the incoming queue WITHOUT dispatching it
         for i, c in self.calls.items():
             if c['state'] == 'pending':
                 ops.append(['cancel', i])
@@ -111,10 +114,13 @@ class Session:
             else:
                 self.hit('stray-reply')
         self.queued = []
+        self.readq = []
 
     def expire(self):
         for i, c in self.calls.items():
             if c['state'] == 'pending' and c['timeout'] != INFINITE and c['deadline'] <= self.time:
+                if any(q[0] == i for q in self.readq):
+                    continue       # its reply is already in the incoming queue: the timeout was removed when it arrived
                 self.complete(i, ('timeout', None))
 
     def peer_msg(self, i, kind):
@@ -210,6 +216,11 @@ class Session:
             self.h.cmd('PEERQ ' + hx)
             resp = self.h.cmd('STATE')
             self.hit('queued-reply')
+        elif kind == 'rw':
+            self.readq = list(self.queued)
+            self.hit('read-without-dispatch')
+            for _ in range(4):      # one call reads at most about 4 KB; everything the peer queued must be in
+                resp = self.h.cmd('RW')
         elif kind == 'pump':
             self.process_queue()
             resp = self.h.cmd('PUMP')
@@ -298,7 +309,7 @@ class Session:
         cd = getattr(self, 'cdump', '')
         for i, c in self.calls.items():
             cd = re.sub(r'([\[,])%d:' % c['serial'], r'\1c%d:' % i, cd)
-        return repr(rel) + repr(self.queued) + repr(self.connected) + cd
+        return repr(rel) + repr(self.queued) + repr(self.readq) + repr(self.connected) + cd
 
     def died(self):
         self.h.close()
